@@ -1,7 +1,7 @@
 //# unit const_step_slow kind=kani_in crate=rusty_linter inject=rusty_linter/src/core/const_value_resolver.rs stubbing=1
 //# assume "literal payloads satisfy the type invariant of their kind (IntegerLiteral in -32768..=32767, LongLiteral in the i32 range, SingleLiteral/DoubleLiteral finite): obligation of the parser (C10)"
 //# assume "the VM side of a step is the Variant method its handler calls on A,B, preceded by the casts the handler applies (rusty_basic/src/interpreter/handlers/{math,logical,comparison}.rs: And/Or cast both registers to INTEGER first); that the handlers are exactly this glue is proved on the real handlers by unit vm_ops (rusty_basic)"
-//# assume "MULTIPLY with a SINGLE/DOUBLE operand, DIVIDE, MOD and MINUS on the six kind pairs that Variant::minus evaluates as -(r - l) are modular obligations: Variant::{multiply,divide,modulo,minus} is replaced (Kani stub) by an arbitrary deterministic function of its two operands (kind and bits), so what is proved is that folder and VM apply the operator to identical operands in identical order and map its outcome identically; two copies of a float multiplier/divider (or of the i32 remainder) cannot be proved equal by the SAT back end (> 15 min per harness). The operator bodies are under contract in unit variant_arith"
+//# assume "MULTIPLY with a SINGLE/DOUBLE operand, DIVIDE, MOD and MINUS on the six kind pairs that Variant::minus evaluated as -(r - l) are modular obligations: Variant::{multiply,modulo,minus} and, for DIVIDE, rusty_linter::core::qb_divide (the function that both the folder and the handler of the Divide instruction call: conversion of both operands to the type of the quotient, Variant::divide, conversion of the quotient) is replaced (Kani stub) by an arbitrary deterministic function of its two operands (kind and bits), so what is proved is that folder and VM apply the operator to identical operands in identical order and map its outcome identically; two copies of a float multiplier/divider (or of the i32 remainder) cannot be proved equal by the SAT back end (> 15 min per harness). The operator bodies are under contract in unit variant_arith, qb_divide in unit type_table"
 //# assume "operand literals reach the VM as Variant::V<kind>(payload) (instruction_generator/expression.rs push_load)"
 // (thorough-tier part of unit const_step: string operands and the complete F7 pair list; same prelude)
 // C14 — inductive step of "a CONST has the value and type its expression has at run time".
@@ -112,7 +112,8 @@ fn vm_binary(op: Operator, a: Variant, b: Variant) -> Result<Variant, Class> {
         Operator::Plus => a.plus(b).map_err(class_of_variant),
         Operator::Minus => a.minus(b).map_err(class_of_variant),
         Operator::Multiply => a.multiply(b).map_err(class_of_variant),
-        Operator::Divide => a.divide(b).map_err(class_of_variant),
+        // handlers/math.rs divide: A := qb_divide(A, B) (both operands and the quotient converted to the type of the quotient)
+        Operator::Divide => qb_divide(a, b).map_err(|e| class_of_lint(&e)),
         Operator::Modulo => a.modulo(b).map_err(class_of_variant),
         Operator::And => vm_logical(a, b, true),
         Operator::Or => vm_logical(a, b, false),
@@ -182,6 +183,12 @@ fn any_binary_operator(a: Variant, b: Variant) -> Result<Variant, VariantError> 
         MEMO = Some((ka, pa, kb, pb, rk, rp));
         outcome(rk, rp)
     }
+}
+
+// the same abstraction for `qb_divide`, whose error type is LintError
+#[cfg(kani)]
+fn any_lint_binary_operator(a: Variant, b: Variant) -> Result<Variant, LintError> {
+    any_binary_operator(a, b).map_err(LintError::from)
 }
 
 fn bits_equal(a: &Variant, b: &Variant) -> bool {
